@@ -5,7 +5,7 @@ from ..adapters.resources import FACETS_TREE
 LENIENT = [
     'C11: a node that is still held by some map (even shadowed in a deeper layer) is never assigned again — one '
     'parent pointer cannot describe two places; assignments that would create a cycle are not generated',
-    'C11: back-links of nodes no map holds any more (replaced, popped, cleared while shadowed) are not compared',
+    'C11: back-links of nodes no map holds any more (replaced, popped, shadowed at the time of a clear) are not compared',
     'C11: m[a][b] through a handle in the middle may fail with any exception class; only [] on the map itself '
     'must raise KeyError',
     'C11: the number and content of ChainMap layers is white-box (wb_layers): a divergence there alone abandons '
@@ -23,15 +23,18 @@ def _configs(thorough):
 def run(res):
     thorough = res.tier == 'thorough'
     rc.note_leniencies(res, LENIENT)
+    # non-vacuity: each as-implemented deviation violates the declarative layer
+    join = rc.switch_runs(res, [('c11_asimpl_' + sw, rc.consts(maps=3, handles=2, depth=2, ops='Ops_Tree', **{sw: False}),
+                                 rc.INV_TREE, rc.PROP_TREE, expect)
+                                for sw, expect in (('ImplicitMapsLinked', ('BackLinks',)),
+                                                   ('ClearAllLayers', ('LatestWins', 'ClearDetaches', 'PathEquivalence')),
+                                                   ('SetItemPopsAllLayers', ('PathEquivalence', 'HandleXorMap', 'LatestWins')))])
     for name, (c, ov) in _configs(thorough).items():
         rc.check_and_replay(res, name, c, ov, rc.INV_TREE, rc.PROP_TREE, own=FACETS_TREE, probe=True,
-                            depth_all=3, walks=3000 if thorough else 1000, walk_len=25, full=thorough and name == 'c11_tree')
-    # non-vacuity: each as-implemented deviation violates the declarative layer
-    for sw, expect in (('ImplicitMapsLinked', ('BackLinks',)),
-                       ('ClearAllLayers', ('LatestWins', 'ClearDetaches', 'PathEquivalence')),
-                       ('SetItemPopsAllLayers', ('PathEquivalence', 'HandleXorMap', 'LatestWins'))):
-        c, ov = rc.consts(maps=3, handles=2, depth=2, ops='Ops_Tree', **{sw: False})
-        rc.switch_run(res, 'c11_asimpl_' + sw, c, ov, rc.INV_TREE, rc.PROP_TREE, expect)
+                            depth_all=3, walks=3000 if thorough else 1000, walk_len=25, before_replay=join)
+        if res.violations:
+            break
+    join()
 
 
 def replay(res, path):
